@@ -53,6 +53,8 @@ def run(chk: Check) -> int:
         col.add(I.rerun(doc), name)
     n = 600 if chk.quick else 8000
     for k in range(n):
+        if col.enough():
+            break
         rng = chk.rng("case", k)
         lk = rng.choice(["mock", "mock", "Learner1D", "Learner1D", "SequenceLearner", "AverageLearner"])
         spec = I.random_spec(rng, faults=rng.random() < 0.1, cancel=True, learner=lk, log=True, big=not chk.quick)
@@ -65,9 +67,13 @@ def run(chk: Check) -> int:
             spec = {"kind": kind, "learner": lk, "total": T, "goal": g, "ntasks": nt, "ncores": 1, "retries": 0,
                     "raise": True, "log": True, "allow_cancel": True, "shutdown_executor": False, "faults": {}}
             cnt = 0
-            for rec in I.enumerate_scheds(lambda s, spec=spec: I.run_case(spec, s), orders="sub", cancel=True):
+            if col.enough():
+                break
+            for rec in I.enumerate_scheds(lambda s, spec=spec: I.run_case(spec, s), orders="sub", cancel=True, limit=60000):
                 cnt += 1
                 col.add(rec, f"exhaustive {lk} {kind} ntasks={nt} evals<={T} goal={g} #{cnt}")
+                if rec.machinery or col.enough():
+                    break
             exh[f"{lk} {kind} ntasks={nt} evals<={T} goal={g}"] = cnt
     col.flush()
     st = col.stats
